@@ -107,10 +107,10 @@ func (p IP4) SetPayload(b []byte, protocol byte) IP4 {
 }
 
 func (p IP4) AppendPayload(b []byte, protocol byte) (IP4, error) {
-	if cap(p)-len(p) < len(b) {
+	if cap(p)-HeaderLen < len(b) { // room after the header, whatever the length of the view (a re-used view may already span a payload)
 		return nil, ErrPayloadTooBig
 	}
-	p = p[:len(p)+len(b)] // change slice in case slice is less than required
+	p = p[:HeaderLen+len(b)] // header + payload, as TotalLen below
 	totalLen := uint16(HeaderLen + len(b))
 	binary.BigEndian.PutUint16(p[2:4], totalLen)
 	copy(p.Payload(), b)
